@@ -66,6 +66,17 @@ POOL = [
     ('SELECT {0} - verif_yield(a, 26) AS x, {1} AS s FROM #t0 WHERE {2} - a > 0', ['int', 'str', 'int'], ()),
     ('SELECT a, a - {0} AS x FROM #t0 WHERE a > {1}', ['int', 'int'], ()),
     ('SELECT nosuch FROM #t0', [], ('bad',)),
+    # rewritten statements with a yield site in the middle of their compilation
+    ('BALANCES FROM year >= verif_cyield(2020, 46) WHERE account ~ "Assets"', [], ('compile', 'agg', 'cooked')),
+    ('BALANCES WHERE account ~ "Expenses|Income"', [], ('agg', 'cooked')),
+    ('BALANCES AT units FROM year >= verif_cyield(2019, 47)', [], ('compile', 'agg', 'cooked')),
+    ('JOURNAL "Assets" FROM year >= verif_cyield(2020, 48)', [], ('compile', 'bal1', 'cooked')),
+    ('JOURNAL "Expenses" AT units', [], ('bal1', 'cooked')),
+    # wide rows: every per-posting column evaluated by two scans that sit on the same row number
+    ('SELECT date, flag, payee, narration, tags, links, account, other_accounts, number, currency, cost_number, cost_currency, '
+     'cost_date, position, price, weight, verif_yield(lineno, 54) AS l', [], ('wide',)),
+    ('SELECT account, weight, other_accounts, verif_yield(number, 55) AS n, weight AS w2 WHERE verif_yield(number, 56) != 0', [], ('wide',)),
+    ('SELECT id, type, date, verif_yield(year, 57) AS y, month, day, flag, payee, narration, description, tags, links FROM #entries', [], ('wide',)),
     # account-related functions and tables (per-connection derived data: open/close index, account types)
     ('SELECT account, open_date(account) AS o, close_date(account) AS c WHERE number > {0}', ['dec'], ('acct',)),
     ('SELECT account, possign(number, account) AS p, verif_yield(number, 50) AS n', [], ('acct',)),
@@ -98,7 +109,7 @@ def generate(rng, tier, run):
             ledgers.append(world.gen_ledger(rng, n_txn=rng.randint(2, 6)))
     t0 = world.gen_table(rng, 't0', nrows=rng.randint(1, 7), cols=T0_COLS, nullable=0.1)
     # swarm: weight statement families per run
-    fam = {'acct': rng.choice([0.3, 1, 3]), 'postfinal': rng.choice([0.5, 2, 4]), 'compile': rng.choice([0.5, 1, 3]), 'bal2': rng.choice([0.5, 2, 4]), 'bal1': rng.choice([0.5, 1, 3]), 'agg': rng.choice([0.5, 1, 2]),
+    fam = {'wide': rng.choice([0.5, 1, 3]), 'cooked': rng.choice([0.5, 1, 3]), 'acct': rng.choice([0.3, 1, 3]), 'postfinal': rng.choice([0.5, 2, 4]), 'compile': rng.choice([0.5, 1, 3]), 'bal2': rng.choice([0.5, 2, 4]), 'bal1': rng.choice([0.5, 1, 3]), 'agg': rng.choice([0.5, 1, 2]),
            'subq': rng.choice([0.3, 1, 2]), 'from': rng.choice([0.3, 1]), 'fault': 0.6, 'bad': 0.2}
 
     def weight(tags):
@@ -144,6 +155,19 @@ def generate(rng, tier, run):
             if rng.random() < 0.8:
                 topology = 'shared'
                 ledgers = ledgers[:1]
+    elif rng.random() < 0.13:
+        # swarm class "rewritten statements": every thread runs BALANCES / JOURNAL statements (compiled through
+        # a shared translation template) with different clauses, some with a yield site inside their compilation
+        cand = [i for i, s_ in enumerate(POOL) if 'cooked' in s_[2]]
+        idxs = []
+        for i in rng.sample(cand, rng.randint(2, len(cand))):
+            tpl, types_, tags = POOL[i]
+            pool.append({'t': tpl, 'types': [], 'tags': list(tags), 'names': []})
+            idxs.append(len(pool) - 1)
+        for c in clients:
+            for op in c['ops']:
+                op.update({'stmt': rng.choice(idxs), 'mode': 'lit', 'vals': [], 'real_parse': rng.random() < 0.3})
+                op.pop('fault', None)
     elif rng.random() < 0.2:
         # swarm class "FROM family": every thread runs FROM-qualified statements (OPEN/CLOSE/CLEAR in
         # different combinations) over one shared connection, i.e. over copies of one registered table
@@ -229,7 +253,7 @@ class Sim(sched.ThreadSim):
                 and any(self.stmt_of[t] is not None and self.stmt_of[t] == self.stmt_of[me] and self.conn_of[t] is self.conn_of[me]
                         for t in other_in):
             self.probes['switch_after_finalize_same_statement_other_thread'] += 1
-        if site[0] == 'expr' and isinstance(site[1], int) and 40 <= site[1] <= 45:
+        if site[0] == 'expr' and isinstance(site[1], int) and 40 <= site[1] <= 48:
             self.probes['switch_inside_compilation'] += 1
         if site[0] == 'expr' and isinstance(site[1], int) and site[1] >= 100:
             self.probes['switch_between_balance_refs'] += 1
